@@ -115,6 +115,9 @@ def run_shard(modname, tier, seed, shard, nshards, replay_case=None):
                 stats['samples'].append({'origin': origin, 'case': case, 'real': res.real})
             if res.monitor:
                 # the property statement fails on the real code
+                if res.key is not None and res.key in known:
+                    stats['known_hits'][res.key] = known[res.key]
+                    continue
                 small = _shrink(check, case, drv, lambda r: bool(r.monitor) and r.key == res.key)
                 rs = check.run_case(small, drv)
                 if rs.key is not None and rs.key in known:
